@@ -30,6 +30,7 @@ def number(rng, kind: str) -> float:
         return float(rng.choice([1, 2, 3, 5, 7, 10, 25, 100, 1000, 12345, 999999]))
     if kind == "dec4":
         m = rng.choice([1.5, 2.25, 0.125, 3.75, 1.234, 9.999, 0.5, 12.5, 0.001, 0.0101, 4567.0, 0.3333, 78.9,
+                        0.9999, 0.9999, 0.9998, 1.001, 99.99,
                         123400.0, 0.0001, 2.5e5, 1e6])
         return m
     mag = 10 ** rng.uniform(-4, 6)
@@ -42,7 +43,7 @@ def rnd_term(rng, vs: List[str], kind: str) -> Dict[str, Any]:
     c = {}
     for v in sel:
         r = rng.random()
-        x = 1.0 if r < 0.2 else number(rng, kind)
+        x = 1.0 if r < 0.2 else (rng.choice([0.9999, 0.9998, 1.001]) if r < 0.24 else number(rng, kind))
         c[v] = x if rng.random() < 0.5 else -x
     kk = 0.0 if rng.random() < 0.1 else number(rng, kind) * rng.choice([1, -1])
     return {"c": c, "k": kk}
